@@ -226,6 +226,9 @@ def c04(ctx):
     out += external_streams(ctx)
     # literals of xsd:token / xsd:normalizedString whose lexical form the whiteSpace facet would rewrite: a reader hands out the form sent
     out += ref_sweep(ctx, ctx.n(30, 500), igs=("g", "r"), modes=("flat", "grouped", "to_graph"), rdf11=True, facet_p=0.35)
+    # one literal under several spellings of its language tag in one stream: the flat parsers hand out the spelling sent, statement by
+    # statement (flat only: an rdflib Graph / Dataset keeps ONE of the spellings, they are one term for it)
+    out += ref_sweep(ctx, ctx.n(30, 500), igs=("g", "r"), modes=("flat",), rdf11=True, tagcase_p=0.5)
     return out
 
 
